@@ -54,8 +54,10 @@ def run(rep, tier):
     rep.sample({k: (v if len(str(v)) < 300 else str(v)[:300] + "...") for k, v in [x for x in results[0][5] if x["e"] == "Lin"][0].items()})
     rep.sample([x for x in results[0][5] if x["e"] == "Part"][1])
     rep.add(traces_validated_against_impl=total, evaluations=total, distinct_nontrivial=kinds.get("Lin", 0) + kinds.get("Scale", 0), records=kinds,
-            rule="lattice evaluations: 1..40 samples, 1..4 integer features (+ a 3-class feature) with missing values, integer or 3-class targets, "
-                 "mse / mae, integer W, b, l1, l2 in {0,1,4}, cluster assignments incl. unassigned, integer weak-learner outputs; partition / "
+            rule="lattice evaluations: 1..40 samples, 1..4 integer features (+ a 3-class, a multi-label, a structured feature) with missing "
+                 "values, integer / 3-class / multi-label / structured (2..3 outputs) targets, mse / mae, integer W, b, l1, l2 in {0,1,4}, cluster "
+                 "assignments incl. unassigned, integer weak-learner outputs; sample lists: all, sorted subsets, shuffled subsets, with repetitions "
+                 "(sorted or not); every function object evaluated with its gradient at two (lattice) or three (float oracle) points; partition / "
                  "invariance: 1..200 samples, threads {1,2,3,5,16} x batch {1..10000} x cached/uncached, also cauchy / pinball losses")
     rep.assume("the exact definition check covers the piecewise-polynomial losses (mse, mae) with scaling `none`; for transcendental losses only "
                "partition and invariance (1e-9 relative) are checked",
